@@ -62,6 +62,11 @@ def check(run, prog, tier):
         def __getattr__(self, name):
             return getattr(self.run, name)
     c19.rule_A(Proxy(run), prog, m)
+    run.rule("C12-H", "reading the rephasing or non-rephasing signal of a response does not change what is stored, so "
+                      "that total = rephasing + non-rephasing holds for every order of reads (ownership states of the "
+                      "view accumulators, rule of C19-F)", minimum=8)
+    from ..report import RuleProxy
+    c19.rule_F(RuleProxy(run, "C12-H"), prog, m)
 
 
 def rule_G(run, prog):
